@@ -79,8 +79,8 @@ ASSUMPTIONS = [
 ]
 
 FLOORS = {
-    'quick': {'states': 6, 'transitions': 4000, 'validated': 2000, 'outcomes': 3, 'set:symbols_executed': 53, 'set:fault_types': 6, 'set:faults': 15},
-    'thorough': {'states': 6, 'transitions': 250000, 'validated': 90000, 'outcomes': 3, 'set:symbols_executed': 53, 'set:fault_types': 6, 'set:faults': 15},
+    'quick': {'states': 6, 'transitions': 4000, 'validated': 2000, 'outcomes': 3, 'set:symbols_executed': 54, 'set:fault_types': 6, 'set:faults': 15},
+    'thorough': {'states': 6, 'transitions': 250000, 'validated': 90000, 'outcomes': 3, 'set:symbols_executed': 54, 'set:fault_types': 6, 'set:faults': 15},
 }
 
 WD = 10  # seconds per library call
@@ -500,6 +500,10 @@ def _set_ser(cx):
 # -- csscombine
 sym('csscombine(path-ok)')(lambda cx: cssutils.script.csscombine(path=cx.path('main.css')))
 sym('csscombine(cssText-ok)')(lambda cx: cssutils.script.csscombine(cssText='@import "a.css"; b{left:0}', href='file://' + cx.path('x.css'), minify=False))
+# every option of the call set to its non-default value: what it changes for the call is put back afterwards
+sym('csscombine(cssText-ok,all-options-non-default)', "import cssutils.script\ncssutils.script.csscombine(cssText='@variables{c:red}a{color:var(c)}', minify=False, resolveVariables=False, targetencoding='ascii')")(
+    lambda cx: cssutils.script.csscombine(cssText='@variables{c:red}@import "a.css"; a{color:var(c)}', href='file://' + cx.path('x.css'), minify=False,
+                                          resolveVariables=False, targetencoding='ascii', sourceencoding='utf-8'))
 sym('csscombine(path-missing)', "import cssutils.script\ncssutils.script.csscombine(path='/nonexistent/missing.css')")(lambda cx: cssutils.script.csscombine(path=cx.path('missing.css')))
 sym('csscombine(source-undecodable)', f"import cssutils.script\ncssutils.script.csscombine(cssText={UNDEC!r}, sourceencoding='ascii')")(
     lambda cx: cssutils.script.csscombine(cssText=UNDEC, sourceencoding='ascii')
@@ -617,6 +621,7 @@ PROBES = [
     ('dom-edits-accepted', lambda: _p_edit('a{color:red}', lambda s: (s.insertRule('b{top:0}', 1), s.cssRules[0].style.setProperty('left', '1px', 'important'),
                                                                        s.add('@media print{x{top:0}}'), s.cssRules[1].selectorList.appendSelector('c')))),
     ('validation', lambda: cssutils.parseString('a{color:1px;colr:red;top:red;opacity:0.5;x-c12:1}')),
+    ('variables', lambda: cssutils.parseString('@variables{c:red;d:1px}a{color:var(c);left:var(d);top:var(nope)}')),
     ('dom-edit-must-raise', lambda: _p_edit('a{color:red}', lambda s: setattr(s.cssRules[0], 'selectorText', 'a,,'))),
     ('parse-must-not-raise', lambda: cssutils.parseString('a{$;color:red;b:f(} }{ @import; @media screen and({} x{y:z}')),
 ]
